@@ -143,6 +143,23 @@ def c14(ck, tmp):
                         ck.violation("find_path --fasta record names are not seq_<path> in input order", {"gfa": text, "paths": fstrs, "names": names})
             except BaseException as e:  # noqa
                 cli = "crash:" + type(e).__name__
+        # the command line with ONE path given as the argument itself (not a file of paths), a few per graph
+        if it % 4 == 1:
+            for k in rng.sample(range(len(strs)), min(3, len(strs))):
+                if "zz_not_a_node" in strs[k] or impl[k] is None:
+                    continue
+                out1 = os.path.join(tmp, "fp1.out")
+                try:
+                    tool("find_path", allow_stdout=True, gfa_path=gfa, input_path=strs[k], output=out1, fasta=False)
+                    got = open(out1).read().split("\n")
+                    if got and got[-1] == "":
+                        got.pop()
+                except BaseException as e:  # noqa
+                    got = "crash:" + type(e).__name__
+                ck.count("cli-single-path")
+                if got != [impl[k]]:
+                    ck.violation("find_path with the path %s as its argument writes %r, extract_path gives %r" % (strs[k], got, impl[k]),
+                                 {"gfa": text, "path": strs[k], "cli": got, "lib": impl[k]})
         rep = ck.driver([{"op": "walk.extract", "gfa": tok, "paths": [[[o == "+", n] for n, o in p] for p in allp], "impl": impl}])[0]["results"]
         for k, (s, im, r) in enumerate(zip(strs, impl, rep)):
             nsteps = len(allp[k])
